@@ -2,6 +2,7 @@
 that targets ANOTHER language's classes (Parser(language=...)) is built and used first, then plain parsers;
 every plain parser must return formulas of its own logic.  usage: c10_worker.py <cases.json> <out.json>"""
 import json
+from common import exc_name
 import os
 import sys
 
@@ -30,7 +31,7 @@ def main():
             try:
                 return synfam.describe(LANGS[lang].Parser()(text))
             except pymc.parsermod.ParserError as ex:
-                return {'exc': type(ex).__name__, 'pos': int(ex.pos) if isinstance(ex.pos, int) else -1}
+                return {'exc': exc_name(ex), 'pos': int(ex.pos) if isinstance(ex.pos, int) else -1}
         ev['out'] = synfam.guarded(run)
         if 'exc' in ev['out'] and 'pos' not in ev['out']:
             ev['out']['pos'] = -1
